@@ -98,8 +98,9 @@ class SymGen(object):
         self.decls.append(("axis", name, {"size": size}))
         return ax
 
-    def array(self, name, axes=("n",), kinds=ALL_KINDS, dtype="float", min_size=0, bound_axis=None):
+    def array(self, name, axes=("n",), kinds=ALL_KINDS, dtype="float", min_size=0, bound_axis=None, grid=None):
         axs = tuple(self.axis(a, min_size=min_size) if isinstance(a, str) else a for a in axes)
+        self._grid = grid
         if dtype == "int":
             kinds = (FIN,)
         nan_free = NAN not in kinds
@@ -117,18 +118,19 @@ class SymGen(object):
                     CTX.facts.append(z3.And(e.v >= 0, e.v < bound_axis.size.v))
                 return e
             a.store.get = get
-        self.decls.append(("array", name, {"axes": [x.name for x in axs], "kinds": list(kinds), "dtype": dtype,
+        self.decls.append(("array", name, {"axes": [x.name for x in axs], "kinds": list(kinds), "dtype": dtype, "grid": grid,
                                            "bound_axis": bound_axis.name if bound_axis is not None else None}))
         return a
 
-    def num(self, name, kinds=(FIN,), integer=False, numpy=True):
+    def num(self, name, kinds=(FIN,), integer=False, numpy=True, grid=None):
+        self._numgrid = grid
         v = z3.Int("num_" + name) if integer else z3.Real("num_" + name)
         if len(kinds) == 1:
             k = kinds[0]
         else:
             k = z3.Int("numk_" + name)
             CTX.facts.append(z3.Or(*[k == a for a in kinds]))
-        self.decls.append(("num", name, {"kinds": list(kinds), "integer": integer}))
+        self.decls.append(("num", name, {"kinds": list(kinds), "integer": integer, "grid": grid}))
         return SNum(k, v, is_int=integer, is_numpy=numpy)
 
     def boolean(self, name):
@@ -164,7 +166,7 @@ class ConcGen(object):
         self.min_sizes[name] = max(min_size, self.min_sizes.get(name, 0))
         return name
 
-    def array(self, name, axes=("n",), kinds=ALL_KINDS, dtype="float", min_size=0, bound_axis=None):
+    def array(self, name, axes=("n",), kinds=ALL_KINDS, dtype="float", min_size=0, bound_axis=None, grid=None):
         v = self.values["array:" + name]
         a = _np.array(v, dtype={"float": float, "int": int, "bool": bool}[dtype])
         for ax, n in zip(axes, a.shape):
@@ -178,7 +180,7 @@ class ConcGen(object):
                 raise PreconditionFailed()
         return a
 
-    def num(self, name, kinds=(FIN,), integer=False, numpy=True):
+    def num(self, name, kinds=(FIN,), integer=False, numpy=True, grid=None):
         v = self.values["num:" + name]
         if v == "masked":
             return _np.ma.masked
@@ -650,7 +652,7 @@ GRID_NUM = [0.0, 1.0, 2.0, 0.5, 3.0, -1.0]
 GRID_ARR = [0.0, 1.0, 2.0, -1.0]
 
 
-def enumerate_witness(o, decls, seed=0, budget=6000, sizes=(1, 2, 3), stop_at_first=True, stats=None):
+def enumerate_witness(o, decls, seed=0, budget=6000, sizes=(1, 2, 3), stop_at_first=True, stats=None, vary_axes=False):
     """concrete search for a failing input of the same contract on the REAL code: small grids of values for
     every declared input (array extents 1..3), exhaustive while the grid is small, seeded-random beyond"""
     import itertools
@@ -658,17 +660,28 @@ def enumerate_witness(o, decls, seed=0, budget=6000, sizes=(1, 2, 3), stop_at_fi
     rnd = random.Random(seed)
     special = {NAN: float("nan"), PINF: float("inf"), NINF: float("-inf"), MASKED: "masked"}
     tried = 0
-    per = max(1, budget // max(1, len(sizes)))
-    for n in sizes:
+    free_axes = [name for kind, name, info in decls if kind == "axis" and not isinstance(info["size"], int)]
+    if vary_axes and len(free_axes) > 1:
+        combos = list(itertools.product(sizes, repeat=len(free_axes)))
+        if len(combos) > 40:
+            combos = [tuple(n for _ in free_axes) for n in sizes] + rnd.sample(combos, 36)
+    else:
+        combos = [tuple(n for _ in free_axes) for n in sizes]
+    per = max(1, budget // max(1, len(combos)))
+    for combo in combos:
         names, domains = [], []
+        n = max(combo) if combo else 1
+        csize = dict(zip(free_axes, combo))
         sizes = {}
         for kind, name, info in decls:
             if kind == "axis":
-                sizes[name] = info["size"] if isinstance(info["size"], int) else n
+                sizes[name] = info["size"] if isinstance(info["size"], int) else csize[name]
         for kind, name, info in decls:
             if kind == "num":
                 vals = [v for v in GRID_NUM if FIN in info["kinds"]] + [special[k] for k in info["kinds"] if k != FIN]
-                if info["integer"]:
+                if info.get("grid"):
+                    vals = list(info["grid"]) + [special[k] for k in info["kinds"] if k != FIN]
+                elif info["integer"]:
                     vals = [int(v) for v in vals if isinstance(v, float) and v == int(v) and v == v and abs(v) != float("inf")]
                 names.append("num:" + name); domains.append(("scalar", vals))
             elif kind == "bool":
@@ -681,8 +694,10 @@ def enumerate_witness(o, decls, seed=0, budget=6000, sizes=(1, 2, 3), stop_at_fi
                     vals = [False, True]
                 else:
                     vals = [v for v in GRID_ARR if FIN in info["kinds"]] + [special[k] for k in info["kinds"] if k not in (FIN, MASKED)]
-                    if info["dtype"] == "int":
-                        vals = list(range(n)) if info.get("bound_axis") else [0, 1, 2]
+                    if info.get("grid"):
+                        vals = list(info["grid"]) + [special[k] for k in info["kinds"] if k not in (FIN, MASKED)]
+                    elif info["dtype"] == "int":
+                        vals = list(range(sizes.get(info.get("bound_axis"), n))) if info.get("bound_axis") else [0, 1, 2]
                 names.append("array:" + name); domains.append(("array", vals, shape))
         total = 1
         for d in domains:
@@ -692,7 +707,9 @@ def enumerate_witness(o, decls, seed=0, budget=6000, sizes=(1, 2, 3), stop_at_fi
         def build(choice_fn):
             vals = {}
             for nm, d in zip(names, domains):
-                if d[0] == "scalar":
+                if d[0] == "scalar" and nm.startswith("bool:"):
+                    vals[nm] = rnd.random() < 0.3          # option flags: mostly off, so that selections stay non-empty
+                elif d[0] == "scalar":
                     vals[nm] = choice_fn(d[1])
                 else:
                     k = int(_np.prod(d[2]))
@@ -729,6 +746,8 @@ def enumerate_witness(o, decls, seed=0, budget=6000, sizes=(1, 2, 3), stop_at_fi
                 stats["cases"] = tried
                 if rep.get("outcome") != "precondition-not-met":
                     stats["evaluated"] = stats.get("evaluated", 0) + 1
+                    stats.setdefault("outcomes", {})
+                    stats["outcomes"][rep.get("outcome")] = stats["outcomes"].get(rep.get("outcome"), 0) + 1
             if rep.get("failed"):
                 return vals, rep, tried
     if stats is not None:
@@ -748,7 +767,7 @@ def declared_inputs(o):
     return list(G.decls)
 
 
-def bounded_obligation(name, props, setup, call, post, bound, sizes=(1, 2, 3), budget=60000, **kw):
+def bounded_obligation(name, props, setup, call, post, bound, sizes=(1, 2, 3), budget=60000, vary_axes=False, thorough_budget=None, **kw):
     """a bounded stand-in: the same contract evaluated concretely on the real function over an enumeration
     with a stated bound.  Labelled bounded; never counted as discharged (DESIGN 2.10)."""
     o = Obligation(name, props, setup, call, post, bounded=bound, kind="BOUNDED", **kw)
@@ -759,7 +778,10 @@ def bounded_obligation(name, props, setup, call, post, bound, sizes=(1, 2, 3), b
         stats = {}
         try:
             decls = declared_inputs(o)
-            w = enumerate_witness(o, decls, seed=int(os.environ.get("VERIF_SEED", "0")), budget=budget, sizes=sizes, stats=stats)
+            b = budget
+            if thorough_budget and os.environ.get("PYVC_TIER") == "thorough":
+                b = thorough_budget
+            w = enumerate_witness(o, decls, seed=int(os.environ.get("VERIF_SEED", "0")), budget=b, sizes=sizes, stats=stats, vary_axes=vary_axes)
         except Exception:
             res.status = "error"
             res.note = traceback.format_exc()
@@ -769,7 +791,7 @@ def bounded_obligation(name, props, setup, call, post, bound, sizes=(1, 2, 3), b
         if w is None:
             res.status = "discharged" if res.cases > 0 else "error"
             res.goals.append(GoalResult("bounded-enumeration", "unsat", time.time() - t0, backend="concrete-enumeration", path=0,
-                                        note="%d cases, exhaustive=%s" % (res.cases, stats.get("exhaustive"))))
+                                        note="%d cases, exhaustive=%s, outcomes=%s" % (res.cases, stats.get("exhaustive"), stats.get("outcomes"))))
         else:
             res.status = "refuted"
             res.witness, res.replay = w[0], w[1]
@@ -1016,10 +1038,12 @@ def replay(o, values):
     st = contextlib.ExitStack()
     if o.patch is not None and getattr(o, "patch_concrete", True):
         st.enter_context(o.patch(inp))
+    import contextlib as _cl
+    import io as _io
     with st, warnings.catch_warnings():
         warnings.simplefilter("ignore")
         try:
-            with _np.errstate(all="ignore"):
+            with _np.errstate(all="ignore"), _cl.redirect_stdout(_io.StringIO()):
                 out = o.call(inp)
             info["outcome"] = "return"
             info["observed"] = _short(out)
